@@ -45,6 +45,16 @@ CLAIMED = {
          "TLC checks the scan specification (truth layer Survivors/Occurring versus the transcribed greedy scan) on every original file over {0,1} of the configured lengths and every insertion and deletion (every position, lengths 1..6), then each of those cases is executed on the real par2.Verify - usable count between TLC's own bounds and equal to the model's greedy count - and on the real par2.Repair with exactly as many recovery blocks as slices that do not survive; a second driver covers slice sizes 4..2000, every residue of the file length modulo the slice size, edit positions across the file, edit lengths up to S+3 and content moved to another protected name on random content.",
          "Checksums idealised as injective; on random content Survivors equals the slices the edit does not overlap.",
          "DESIGN.md section 5 C16"),
+ "C07": ("model_checking",
+         "RSCoder.tla (transcribed ReconstructData over Matrix.tla and real GF(2^16)): TLC checks every availability pattern for small (d,p), both coders; each pattern replayed on real rsec16; seeded large codes; every 'singular' decided by TLC's own determinant from the spec's entries",
+         "TLC runs the transcription of rsec16's ReconstructData (row choice, augmentation, row reduction) for every availability pattern of every small code with unit-vector data over the real GF(2^16) and checks nil=>original, too-few<=>typed error, Cauchy always / MDS, Vandermonde iff the lowest-rows system is non-singular, and the specification's facts about its constants; every pattern is then replayed on the real NewCoderCauchy / NewCoderPAR2Vandermonde / GenerateParity / ReconstructData with random data at several shard lengths and goroutine counts (for tiny shards TLC also recomputes every parity word from the definitions); seeded codes up to (3000,64) and (300,300) with erasure sets around the capability, non-contiguous parity rows and the format's singular combinations found by search are judged with TLC recomputing each determinant.",
+         "restored / supplied-unchanged are byte comparisons by the harness; seeded codes keep k <= 48 missing shards.",
+         "DESIGN.md section 5 C07"),
+ "C11": ("model_checking",
+         "Matrix.tla: TLC pushes EVERY matrix over GF(2)/GF(4)/GF(8)/GF(16) through the transcribed rowReduceForInverse (error <=> Det=0 <=> kernel vector, result*M=I, [M|N]->M^-1N); real gf2p16.Matrix calls on structured matrices up to 150 (300) judged by TLC with full products / Freivalds probes / verified kernel-vector certificates",
+         "The step-by-step TLA+ transcription of rowReduceForInverse is model-checked on every n x n matrix over tiny fields (every pivot position, swap pattern and late singularity) against the truth layer (determinant, kernel vectors, products); the same Matrix module instantiated at GF(2^16) judges recorded calls of the real Inverse / RowReduceForInverse / Times on random, Vandermonde, Cauchy, permutation, triangular, swap-at-every-pivot, rank-deficient (first/middle/last pivot) and low-rank matrices: a result is accepted only if TLC's own product gives the identity (full for n<=40, Freivalds above), an error only with a kernel vector TLC verifies, and for n<=12 the result must equal the transcribed algorithm's.",
+         "Freivalds probes above n=40 (error 2^-48); certificates are untrusted inputs verified by TLC.",
+         "DESIGN.md section 5 C11"),
 }
 
 NOT_YET = "check under construction in this round; not claimed until it runs green on the unchanged tree"
